@@ -5,7 +5,7 @@
    commutative-ring laws, EVERY shape r x c (r >= 1), EVERY entry, vector and scalar.  No law about conj is needed.
    c01s_wf r c A := A has r rows of length c. *)
 From Coq Require Import List ZArith Bool Ring.
-From DuneV Require Import C01_Model C01_Spec C01_Proofs C01_Proofs_Ops C01_Proofs_Mul C01_Proofs_Views C01_Proofs_Via C01_Proofs_Conv C01_Proofs_Neg C01_Proofs_Extra.
+From DuneV Require Import C01_Model C01_Spec C01_Proofs C01_Proofs_Ops C01_Proofs_Mul C01_Proofs_Views C01_Proofs_Via C01_Proofs_Conv C01_Proofs_Neg C01_Proofs_Extra C01_Proofs_Div C01_Proofs_Zp.
 Import ListNotations.
 
 Section C01.
@@ -177,6 +177,30 @@ Theorem C01_norms : forall (nrm : R -> Z) (x : list R) (A : list (list R)),
   c01_mnorm_sum K nrm A = fold_right Z.add 0%Z (map (fun row => fold_right Z.add 0%Z (map nrm row)) A) /\
   c01_mnorm_inf K nrm A = fold_right Z.max 0%Z (map (fun row => fold_right Z.add 0%Z (map nrm row)) A).
 Proof. exact (P_norms K). Qed.
+
+(* division by a scalar, all four operators (DenseVector /=, FieldVector v/k, DenseMatrix /=, FieldMatrix A/k): over a carrier
+   with division (c01_div_laws: a defined quotient is a quotient; multiples of b <> 0 are exactly divisible by b) entrywise
+   division by alpha <> 0 is the inverse of entrywise multiplication by alpha *)
+Theorem C01_scalar_division : c01_div_laws K ->
+  forall r c (x : list R) (A : list (list R)) (alpha : R), c01s_wf r c A -> alpha <> c01_O K ->
+  c01_vdiv K (c01_vscale K x alpha) alpha = Some x /\
+  c01_fv_divs K (c01_fv_muls K x alpha) alpha = Some x /\
+  c01_mdiv K (c01_mscale K A alpha) alpha = Some A /\
+  c01_fm_divs K r c (c01_fm_muls K r c A alpha) alpha = Some A /\
+  (forall q, c01_vdiv K x alpha = Some q -> c01s_vscale K alpha q = x) /\
+  (forall q, c01_fv_divs K x alpha = Some q -> c01s_vscale K alpha q = x) /\
+  (forall Q, c01_mdiv K A alpha = Some Q -> c01s_mscale K alpha Q = A) /\
+  (forall Q, c01_fm_divs K r c A alpha = Some Q -> c01s_mscale K alpha Q = A).
+Proof. exact (P_scalar_division K Rth). Qed.
+(* the division loops are the structural componentwise quotient (all or nothing); over a field every quotient is defined *)
+Theorem C01_division_loops : forall r c (x : list R) (A : list (list R)) (k : R), c01s_wf r c A ->
+  c01_vdiv K x k = c01s_vdiv K x k /\ c01_fv_divs K x k = c01s_vdiv K x k /\
+  c01_mdiv K A k = c01s_mdiv K A k /\ c01_fm_divs K r c A k = c01s_mdiv K A k /\
+  (c01_div_total K -> k <> c01_O K -> exists q, c01_vdiv K x k = Some q).
+Proof.
+  exact (fun r c x A k W => conj (P_vdiv K x k) (conj (P_fv_divs K x k) (conj (P_mdiv K A k) (conj (P_fm_divs K r c A k W)
+           (fun T N => P_scalar_division_total K T x k N))))).
+Qed.
 End C01.
 Print Assumptions C01_kernels_dense.
 Print Assumptions C01_kernels_diag.
@@ -198,6 +222,8 @@ Print Assumptions C01_matrix_negation_dynamic_default_refuted.
 Print Assumptions C01_matrix_comparison.
 Print Assumptions C01_assignment.
 Print Assumptions C01_norms.
+Print Assumptions C01_scalar_division.
+Print Assumptions C01_division_loops.
 
 (* the hypotheses are satisfiable: the carriers used by the correspondence check satisfy the laws *)
 Theorem C01_instance_Z : ring_theory (c01_O c01_Z_ops) (c01_I c01_Z_ops) (c01_add c01_Z_ops) (c01_mul c01_Z_ops) (c01_sub c01_Z_ops) (c01_opp c01_Z_ops) (@eq Z).
@@ -219,3 +245,42 @@ Example C01_umhv_conjugates :
   c01_umtv c01_G_ops [[(1,1);(2,0);(0,3)];[(0,0);(1,-1);(5,0)]] [(1,2);(0,1)] [(0,0);(0,0);(0,0)] <> [(3,1);(1,5);(6,2)].
 Proof. split; [ vm_compute; reflexivity | vm_compute; discriminate ]. Qed.
 Print Assumptions C01_umhv_conjugates.
+
+(* Z mod p on its canonical representatives {x | x mod p = x}: the carrier's operations ARE the model's operations
+   (c01_P_ops p, which the extracted model runs on raw integers), they form a commutative ring with decidable equality ... *)
+Theorem C01_instance_Zp : forall p (Hp : 0 < p),
+  let Kc := c01_Pc_ops p Hp in let M := c01_P_ops p in
+  ring_theory (c01_O Kc) (c01_I Kc) (c01_add Kc) (c01_mul Kc) (c01_sub Kc) (c01_opp Kc) (@eq (c01_Zp p)) /\
+  (forall a b, c01_eqb Kc a b = true <-> a = b) /\
+  (forall a b : c01_Zp p,
+     c01_Zp_val (c01_O Kc) = c01_O M /\ c01_Zp_val (c01_I Kc) = c01_I M /\
+     c01_Zp_val (c01_add Kc a b) = c01_add M (c01_Zp_val a) (c01_Zp_val b) /\
+     c01_Zp_val (c01_mul Kc a b) = c01_mul M (c01_Zp_val a) (c01_Zp_val b) /\
+     c01_Zp_val (c01_sub Kc a b) = c01_sub M (c01_Zp_val a) (c01_Zp_val b) /\
+     c01_Zp_val (c01_opp Kc a) = c01_opp M (c01_Zp_val a) /\
+     c01_Zp_val (c01_conj Kc a) = c01_conj M (c01_Zp_val a) /\
+     c01_eqb Kc a b = c01_eqb M (c01_Zp_val a) (c01_Zp_val b)).
+Proof. exact (fun p Hp => conj (P_Zp_ring p Hp) (conj (P_Zp_eqb p Hp) (P_Zp_ops_agree p Hp))). Qed.
+Print Assumptions C01_instance_Zp.
+(* ... for the two primes of the harness a field satisfying the division laws (enumeration of the representatives) ... *)
+Theorem C01_instance_Zp_field :
+  (c01_div_laws (c01_Pc_ops 7 c01_pos7) /\ c01_div_total (c01_Pc_ops 7 c01_pos7)) /\
+  (c01_div_laws (c01_Pc_ops 13 c01_pos13) /\ c01_div_total (c01_Pc_ops 13 c01_pos13)) /\
+  c01_div_laws c01_Z_ops.
+Proof. exact (conj P_Zp7_field (conj P_Zp13_field P_Z_div_laws)). Qed.
+Print Assumptions C01_instance_Zp_field.
+(* ... and the kernels on raw canonical integers (the GF(p) stream of the correspondence check) are the images of the kernels
+   over the canonical carrier, to which C01_kernels_dense applies *)
+Theorem C01_instance_Zp_kernels : forall p (Hp : 0 < p) (A : list (list (c01_Zp p))) (x y : list (c01_Zp p)) (alpha : c01_Zp p),
+  let Kc := c01_Pc_ops p Hp in let M := c01_P_ops p in let v := @c01_Zp_val p in
+  let A' := map (map v) A in let x' := map v x in let y' := map v y in
+  map v (c01_mv Kc A x y) = c01_mv M A' x' y' /\ map v (c01_mtv Kc A x y) = c01_mtv M A' x' y' /\
+  map v (c01_umv Kc A x y) = c01_umv M A' x' y' /\ map v (c01_umtv Kc A x y) = c01_umtv M A' x' y' /\
+  map v (c01_umhv Kc A x y) = c01_umhv M A' x' y' /\
+  map v (c01_mmv Kc A x y) = c01_mmv M A' x' y' /\ map v (c01_mmtv Kc A x y) = c01_mmtv M A' x' y' /\
+  map v (c01_mmhv Kc A x y) = c01_mmhv M A' x' y' /\
+  map v (c01_usmv Kc alpha A x y) = c01_usmv M (v alpha) A' x' y' /\
+  map v (c01_usmtv Kc alpha A x y) = c01_usmtv M (v alpha) A' x' y' /\
+  map v (c01_usmhv Kc alpha A x y) = c01_usmhv M (v alpha) A' x' y'.
+Proof. exact P_Zp_kernels_transfer. Qed.
+Print Assumptions C01_instance_Zp_kernels.
